@@ -182,7 +182,8 @@ def _run_one(cc, func, it, ctx, config, res, tname):
         env = {}
     else:
         args, kwargs, env = built
-    it.env = env
+    it.env.update(env)
+    env = it.env
     for key, lc in (cc.__dict__.get("loops") or {}).items():
         it.loop_contracts[key] = lc
     # ---- requires
@@ -220,6 +221,7 @@ def _run_one(cc, func, it, ctx, config, res, tname):
         exc = pr.exc
     it.verifying = None
     ctx.mode = "assert"
+    old.d["G_now"] = NS(ctx.ghost)
     if exc is not None:
         allowed = cc.__dict__.get("raises") or {}
         matched = None
@@ -253,10 +255,25 @@ def _run_one(cc, func, it, ctx, config, res, tname):
     items = _ensures_items(cc)
     if not items:
         return
-    # one clause per path (clauses fork independently: sum, not product, of their paths)
-    k = ctx.choose([z3.BoolVal(True)] * len(items), labels=[nm for nm, _ in items], site="ensures") if len(items) > 1 else 0
-    nm, fn = items[k]
-    fn = fn.__func__ if isinstance(fn, staticmethod) else fn
+    # Clauses are first evaluated as formulas (no forking): all of them on this one path.  A clause
+    # that needs to branch (or whose evaluation can raise) falls back to exec mode, one such clause
+    # per path (clauses fork independently: sum, not product, of their paths).
+    fallback = []
+    for nm, fn in items:
+        fn = fn.__func__ if isinstance(fn, staticmethod) else fn
+        n_pc = len(ctx.pc)
+        it.formula_mode = True
+        try:
+            v = it.call(fn, [old] + list(args) + [result], dict(kwargs))
+            assert_value(it, f"{tname}.{nm}", v, kind="post")
+        except (Unsupported, PyRaise) as e:
+            fallback.append((nm, fn))
+        finally:
+            it.formula_mode = False
+    if not fallback:
+        return
+    k = ctx.choose([z3.BoolVal(True)] * len(fallback), labels=[nm for nm, _ in fallback], site="ensures") if len(fallback) > 1 else 0
+    nm, fn = fallback[k]
     v = it.call(fn, [old] + list(args) + [result], dict(kwargs))
     assert_value(it, f"{tname}.{nm}", v, kind="post")
 
